@@ -19,7 +19,7 @@ func init() {
 			"(O1) listener.Shutdown: on the non-upgrade branch the listener is closed before the drain callback, on the upgrade branch accepting is stopped before it and the listening socket is NOT closed (the new process owns it); " +
 			"(O2) activeListener.OnShutdown notifies every connection (OnShutdown event) and then waits in waitConnectionsClose(drainTime) on every path; the wait loop re-reads the active-stream gauge and is bounded by the elapsed time; " +
 			"(O3) StageManager.Stop runs the graceful-stop stage (app.Shutdown, then the registered hooks) before app.Close whenever the action is GracefulStop or Upgrade, and Close before the after-stop stage; " +
-			"(O4) connection.startReadLoop hands a connection over (transfer) only after the stop signal and the transfer deadline, asks the transfer callback once, and transfer() passes the connection (with its read buffer) to transferRead before transferWrite. (O5) connection.readBuffer is never reset to nil (or transferReadSendData tolerates nil) and transferRead sends that buffer. (O6) MServerConn.goAway writes maxClientStreamID as last-stream-id on every path, is idempotent, and processHeaders creates no stream while inGoAway. (O7) path-sensitively over inGoAway and StreamID > maxClientStreamID: no feasible path in HandleFrame reaches a process* handler with both possibly true. (O8) no invoke of Close on an api.Connection is statically reachable from any server-side GoAway() in pkg/stream/{http,http2,xprotocol}. (O9) every access to connection.needTransfer, plain or atomic, lies on the success edge of tryMutex.TryLock with no non-deferred Unlock in between.",
+			"(O4) connection.startReadLoop hands a connection over (transfer) only after the stop signal and the transfer deadline, asks the transfer callback once, and transfer() passes the connection (with its read buffer) to transferRead before transferWrite. (O5) connection.readBuffer is never reset to nil (or transferReadSendData tolerates nil) and transferRead sends that buffer. (O6) MServerConn.goAway writes maxClientStreamID as last-stream-id on every path, is idempotent, and processHeaders creates no stream while inGoAway. (O7) path-sensitively over inGoAway and StreamID > maxClientStreamID: no feasible path in HandleFrame reaches a process* handler with both possibly true. (O8) no invoke of Close on an api.Connection is statically reachable from any server-side GoAway() in pkg/stream/{http,http2,xprotocol}. (O9) every access to connection.needTransfer, plain or atomic, lies on the success edge of tryMutex.TryLock with no non-deferred Unlock in between. (O10) every value stored into connection.readBuffer is buffer.GetIoBuffer's result, nil or a parameter; every []byte taken from the accept context in newServerConnection is written into the read buffer.",
 		Run: runC11,
 	})
 }
@@ -40,6 +40,8 @@ func runC11(c *Ctx) {
 	defer c11ShutdownNeverCloses(c)
 	c.Rule("C11.O9", "the hand-over flag of a connection is raised and read only under the write lock: the hand-over waits for a response in progress", 2)
 	defer c11TransferFlagUnderWriteLock(c)
+	c.Rule("C11.O10", "a connection reads into growable storage of its own; bytes handed over with a connection are copied into it", 4)
+	defer c11ReadBufferOwned(c)
 	c.NotDecided = append(c.NotDecided, "that no request on a new, handed-over or in-flight connection fails around SIGTERM/SIGHUP (cross-process, kernel and timing dependent)", "fd passing over the unix socket, inheritance of listeners by the new process", "HTTP/2 GOAWAY and keep-alive draining")
 
 	named := func(n string) func(cc *ssa.CallCommon) bool {
@@ -630,4 +632,81 @@ func c11TransferFlagUnderWriteLock(c *Ctx) {
 	if n < 2 {
 		c.Unresolved("C11.O9", "accesses to connection.needTransfer (expected notifyTransfer and writeDirectly)")
 	}
+}
+
+// c11ReadBufferOwned (O10): the new process reads on into a buffer of its own that holds the handed-over bytes.
+// A connection's read buffer must be growable storage of the connection (buffer.GetIoBuffer): ReadOnce reads into its
+// free room. On the new-mosn side of a hand-over the bytes the old process had already read arrive as a plain []byte;
+// they have to be *copied into* such a buffer (Write). Wrapping the slice (NewIoBufferBytes) yields a buffer without
+// room: the first read returns (0, nil), which doRead turns into EOF, and the connection that was just handed over is
+// closed with a request half received. Clauses: (a) every value stored into connection.readBuffer is the result of
+// buffer.GetIoBuffer, nil, or a parameter (OnRead); (b) in newServerConnection the handed-over bytes
+// (VariableAcceptBuffer) are written into the read buffer.
+func c11ReadBufferOwned(c *Ctx) {
+	pkg := "pkg/network"
+	n := 0
+	ord := ordCounter{}
+	for _, fn := range c.PkgFuncs(pkg) {
+		for _, st := range storesToField(fn, "pkg/network.connection", "readBuffer", false) {
+			n++
+			v := stripIface(st.Val)
+			ok, why := false, "a value of unknown origin"
+			switch x := v.(type) {
+			case *ssa.Const:
+				ok, why = true, "nil"
+			case *ssa.Parameter:
+				ok, why = true, "the caller's buffer (OnRead)"
+			case *ssa.Call:
+				name := calleeName(x.Common())
+				if strings.HasSuffix(name, "buffer.GetIoBuffer") {
+					ok, why = true, "buffer.GetIoBuffer"
+				} else {
+					why = "the result of " + name
+				}
+			}
+			c.Check("C11.O10", ord.next(fn, "read-buffer-owned"), st.Pos(), ok, "read buffer is "+why, "connection.readBuffer is set to "+why+" in "+fn.Name()+": the read loop needs growable storage of its own; a buffer wrapped around a foreign slice has no free room, the next read returns (0, nil), is taken for EOF and the connection is closed - on the hand-over path a half-received request is lost")
+		}
+	}
+	if n < 3 {
+		c.Unresolved("C11.O10", "stores to connection.readBuffer")
+	}
+	// (b)
+	fn := c.F(pkg, "newServerConnection")
+	if fn == nil {
+		c.Unresolved("C11.O10", "pkg/network.newServerConnection")
+		return
+	}
+	// every []byte taken out of the context (the bytes that came with the connection) is written into the read buffer
+	nb := 0
+	written := true
+	forEachInstr(fn, false, func(_ *ssa.Function, in ssa.Instruction) {
+		ta, ok := in.(*ssa.TypeAssert)
+		if !ok || ta.AssertedType.String() != "[]byte" {
+			return
+		}
+		ex, ok := ta.X.(*ssa.Extract)
+		if !ok {
+			return
+		}
+		call, ok := ex.Tuple.(*ssa.Call)
+		if !ok || !strings.HasSuffix(calleeName(call.Common()), "variable.Get") {
+			return
+		}
+		nb++
+		used := false
+		for _, r := range refs(ta) {
+			if ci, isC := r.(ssa.CallInstruction); isC && ci.Common().IsInvoke() && ci.Common().Method.Name() == "Write" {
+				if _, f, _, okf := loadedField(ci.Common().Value); okf && f == "readBuffer" {
+					used = true
+				}
+			}
+		}
+		if !used {
+			written = false
+		}
+	})
+	if nb == 0 {
+		written = false
+	}
+	c.Check("C11.O10", funcKey(fn)+":handed-over-bytes-written", fn.Pos(), written, "the bytes received with the connection are written into its read buffer", "newServerConnection no longer writes the bytes handed over with a transferred connection into its read buffer: the part of a request the old process had already read is lost")
 }
